@@ -67,6 +67,10 @@ fn main() {
         mcw::core::start_watchdog(std::env::var("MCW_CASE_WALL_S").ok().and_then(|v| v.parse().ok()).unwrap_or(60));
     }
     let t0 = std::time::Instant::now();
+    if ctx.prop == "SPECCOV" {
+        mcw::sweep::speccov(&mut mcw::core::Real::new());
+        return;
+    }
     if ctx.prop == "NAMES" {
         // dev helper: the registered instruction names of the tree under test
         for n in mcw::core::Real::new().names() {
@@ -75,6 +79,8 @@ fn main() {
         return;
     }
     match ctx.prop.as_str() {
+        // the generic "judge on every background" family is the same code for every property that owns instructions
+        _ if ctx.family == "background" => mcw::steps::background(&mut ctx),
         "C01" => mcw::c01::run(&mut ctx),
         "C02" => mcw::c02::run(&mut ctx),
         "C03" | "C11" => mcw::c03::run(&mut ctx),
